@@ -149,7 +149,7 @@ func genC16(x *Ctx) *c16Scen {
 			id++
 			r := &c16Req{ID: id}
 			r.Codec = []string{"json", "xml"}[tp.G(2)]
-			r.CTForm = tp.G(4)
+			r.CTForm = tp.G(5)
 			r.Coding = []string{"gzip", "", "deflate", "gzip"}[tp.G(4)]
 			r.Pretty = tp.Bool()
 			r.Size = tp.G(maxSize + 1)
@@ -262,6 +262,8 @@ func runC16(x *Ctx) {
 					hdr["Content-Type"] = r.ct + "; charset=utf-8"
 				case 2:
 					hdr["Content-Type"] = r.ct + ";charset=UTF-8; boundary=x"
+				case 4:
+					hdr["Content-Type"] = r.ct + " ; charset=utf-8" // optional whitespace before the parameter
 				case 3:
 					// no Content-Type: only readable when the default request content type names this codec
 					if sc.Default == "application/"+r.Codec {
